@@ -315,21 +315,36 @@ def rule_sibling_scripts(ctx, rep: Report, rid="Y4"):
         mi, opts, ctor, scope = _script_info(ctx, rel)
         av = _args_var(scope)
         tv = None
+        src_scope, src_param = scope, None
         for st in ast.walk(scope):
             if isinstance(st, ast.Assign) and len(st.targets) == 1 and isinstance(st.targets[0], ast.Name) \
                     and unparse(st.value).startswith(f"{av}.top_module_namespaces"):
                 tv = st.targets[0].id
+            # ... or built by a module-level helper that is given the option value
+            if isinstance(st, ast.Assign) and len(st.targets) == 1 and isinstance(st.targets[0], ast.Name) and isinstance(st.value, ast.Call) \
+                    and isinstance(st.value.func, ast.Name) and st.value.func.id in mi.functions and len(st.value.args) == 1 \
+                    and unparse(st.value.args[0]) == f"{av}.top_module_namespaces":
+                h = mi.functions[st.value.func.id]
+                rets = [r.value for r in ast.walk(h) if isinstance(r, ast.Return) and r.value is not None]
+                if len(rets) == 1 and isinstance(rets[0], ast.Name) and len(h.args.args) == 1:
+                    tv, src_scope, src_param = rets[0].id, h, h.args.args[0].arg
         if tv is None:
             raise AnalysisError(f"{rel}: the list built from --top_module_namespaces is not bound to a variable")
 
         def norm(node) -> str:
             c = ast.parse(unparse(node)).body[0]
-            for x in ast.walk(c):
-                if isinstance(x, ast.Name) and x.id == tv:
-                    x.id = "_T"
-                elif isinstance(x, ast.Name) and x.id == av:
-                    x.id = "_A"
-            return unparse(c)
+
+            class T(ast.NodeTransformer):
+                def visit_Name(self, x):
+                    if x.id == tv:
+                        x.id = "_T"
+                    elif src_param is None and x.id == av:
+                        x.id = "_A"
+                    elif src_param is not None and x.id == src_param:
+                        return ast.Attribute(value=ast.Name(id="_A", ctx=ast.Load()), attr="top_module_namespaces", ctx=ast.Load())
+                    return x
+            return unparse(ast.fix_missing_locations(T().visit(c)))
+        scope = src_scope
         stmts = []
         ifs = [st for st in ast.walk(scope) if isinstance(st, ast.If) and tv in {x.id for x in ast.walk(st.test) if isinstance(x, ast.Name)}]
         for st in ast.walk(scope):
